@@ -16,6 +16,11 @@
 (***************************************************************************)
 EXTENDS Errs
 
+(* the error re-emitted by a successful recovery: its content is "whatever was pending when p  *)
+(* failed", which only the machine knows; the reference fixes that there is exactly one, where *)
+RecMark == [recovered |-> TRUE]
+IsMark(x) == DOMAIN x = {"recovered"}
+
 R(ok, end, val, em, fl) == [ok |-> ok, end |-> end, val |-> val, em |-> em, fl |-> fl]
 Fail(fl) == R(FALSE, 0, VU, <<>>, fl)
 
@@ -180,6 +185,8 @@ D(g, X, p, c, env) ==
          LET r == DSeq(<<g[3], g[2], g[4]>>, X, p, c, env, <<>>) IN IF r.ok THEN [r EXCEPT !.val = @[2]] ELSE r
     [] o = "padded" ->
          LET r == DSeq(<<g[3], g[2], g[3]>>, X, p, c, env, <<>>) IN IF r.ok THEN [r EXCEPT !.val = @[2]] ELSE r
+    [] o = "lazy" ->
+         LET r == DSeq(<<g[2], AnyRun>>, X, p, c, env, <<>>) IN IF r.ok THEN [r EXCEPT !.val = @[1]] ELSE r
     [] o = "group" -> LET r == DSeq(g[2], X, p, c, env, <<>>) IN IF r.ok THEN [r EXCEPT !.val = VG(@)] ELSE r
     [] o = "grouparr" -> LET r == DSeq(g[2], X, p, c, env, <<>>) IN IF r.ok THEN [r EXCEPT !.val = VA(@)] ELSE r
     [] o = "or" -> DAlts(<<g[2], g[3]>>, X, p, c, env)
@@ -196,7 +203,7 @@ D(g, X, p, c, env) ==
          IF ~un.ok THEN un
          ELSE LET rb == D(g[3], X, p, c, env) IN
               IF rb.ok THEN [un EXCEPT !.fl = @ \cup rb.fl] ELSE Fail(un.fl \cup rb.fl)
-    [] o = "map" -> IF un.ok THEN [un EXCEPT !.val = VM(g[3], @)] ELSE un
+    [] o = "map" -> IF un.ok THEN [un EXCEPT !.val = MapFn(g[3], @)] ELSE un
     [] o = "to" -> IF un.ok THEN [un EXCEPT !.val = VK(g[3])] ELSE un
     [] o = "ignored" -> IF un.ok THEN [un EXCEPT !.val = VU] ELSE un
     [] o \in {"boxed", "memo"} -> un
@@ -244,7 +251,7 @@ D(g, X, p, c, env) ==
     [] o = "rec" -> D(g[2], X, p, c, <<g[2]>> \o env)
     [] o = "ref" -> D(env[g[2]], X, p, c, SubSeq(env, g[2], Len(env)))
     [] o = "withctx" -> D(g[3], X, p, g[2], env)
-    [] o = "mapctx" -> D(g[3], X, p, VM(g[2], c), env)
+    [] o = "mapctx" -> D(g[3], X, p, MapFn(g[2], c), env)
     [] o \in {"thenctx", "ignctx"} ->
          IF ~un.ok THEN un
          ELSE LET rb == D(g[3], X, un.end, un.val, env) IN
@@ -262,6 +269,6 @@ D(g, X, p, c, env) ==
                                LET r == DSkipUntil(s[2], s[3], X, p, c, env) IN
                                IF r.ok THEN [r EXCEPT !.val = VE("su")] ELSE r
                           [] Op(s) = "retry" -> DRetry(g[2], s[2], s[3], X, p, c, env)
-              IN IF rs.ok THEN [rs EXCEPT !.em = <<"RECOVERED">> \o @, !.fl = un.fl \cup @]
+              IN IF rs.ok THEN [rs EXCEPT !.em = Append(@, RecMark), !.fl = un.fl \cup @]
                  ELSE Fail(un.fl)
 =============================================================================
